@@ -55,6 +55,8 @@ type Obl struct {
 	// the definitional cone of the goal and guard (plus parameters); every
 	// other assumption is dropped (sound for proving, much smaller queries).
 	Lean bool
+	// Lambda renders total array definitions as lambda terms (z3 only).
+	Lambda bool
 	// FrameDetail: verdict text of a package-wide frame obligation
 	FrameDetail string
 }
@@ -388,6 +390,31 @@ func (o *Obl) render(withModel bool, tail string, seeds ...string) string {
 			kept = append(kept, c)
 		}
 		all = kept
+	}
+	if o.Lambda {
+		// total array definitions (forall qi. A[qi] = body) become lambda
+		// definitions of A (z3 only): selects beta-reduce instead of waiting for
+		// quantifier instantiation. A is a fresh name constrained by nothing
+		// else, so this is the same theory.
+		lam := map[string]bool{}
+		for _, c := range all {
+			if i := strings.Index(c, ";LAMBDA "); i >= 0 {
+				lam[strings.SplitN(c[i+8:], "|", 2)[0]] = true
+			}
+		}
+		var out []string
+		for _, c := range all {
+			if i := strings.Index(c, ";LAMBDA "); i >= 0 {
+				f := strings.SplitN(c[i+8:], "|", 3)
+				out = append(out, fmt.Sprintf("(define-fun %s () %s (lambda ((qi (_ BitVec 64))) %s))", f[0], f[1], f[2]))
+				continue
+			}
+			if strings.HasPrefix(c, "(declare-const ") && lam[cmdName(c)] {
+				continue
+			}
+			out = append(out, c)
+		}
+		all = out
 	}
 	if o.Focus {
 		all = focusQuantified(all, append(append([]string{}, seeds...), tail))
